@@ -939,7 +939,7 @@ func rowTok(r rrow) string {
 	return s
 }
 
-func (e *env) repCase(prefix []byte, innerTok string, inner []byte, label string) {
+func (e *env) repCase(prefix []byte, innerTok string, inner []byte, rowDBs []string, label string) {
 	payload := append(append([]byte(nil), prefix...), inner...)
 	e.rstore.take()
 	e.seq++
@@ -968,11 +968,16 @@ func (e *env) repCase(prefix []byte, innerTok string, inner []byte, label string
 	e.c.Op(op, out)
 	e.c.Tag("rep:" + label + ":" + strings.SplitN(res, ":", 2)[0])
 	e.c.Case(op, len(prefix) > 0)
-	// monitor: a recognised envelope names the database; every key must carry it
+	// monitor: every key must be under the database the entry names: the envelope's (else "default"), or, for a
+	// row entry, the `_database` the writer stamped on that row (authoritative for rows)
 	for _, k := range keys {
-		if !strings.HasPrefix(k, db+"/") {
+		ok := strings.HasPrefix(k, db+"/")
+		for _, rd := range rowDBs {
+			ok = ok || (rd != "" && strings.HasPrefix(k, rd+"/"))
+		}
+		if !ok {
 			e.c.Fail("replicated-row-stored-outside-envelope-database:applyEntry",
-				fmt.Sprintf("replicated entry whose envelope names database %q stored under buffer key %q", db, k),
+				fmt.Sprintf("replicated entry (envelope database %q, row _database values %q) stored under buffer key %q", db, rowDBs, k),
 				fmt.Sprintf("Receiver.applyEntry(payload hex %s)", hex.EncodeToString(payload)))
 		}
 	}
@@ -988,6 +993,7 @@ func (e *env) repGrid() {
 	type inner struct {
 		tok string
 		b   []byte
+		dbs []string // `_database` string cells of the rows
 	}
 	mkK := func(m interface{}, mtok string, cols []string) inner {
 		cm := om{}
@@ -999,19 +1005,25 @@ func (e *env) repGrid() {
 			mp = append(mp, kvp{"m", m})
 		}
 		mp = append(mp, kvp{"columns", cm})
-		return inner{fmt.Sprintf("K %s %d", mtok, len(cols)), enc(nil, mp)}
+		return inner{fmt.Sprintf("K %s %d", mtok, len(cols)), enc(nil, mp), nil}
 	}
 	mkW := func(rows []rrow) inner {
 		t := "W " + strconv.Itoa(len(rows))
 		var xs []interface{}
+		var dbs []string
 		for _, r := range rows {
 			t += " " + rowTok(r)
 			xs = append(xs, om(r))
+			for _, kv := range r {
+				if s, ok := kv.v.(string); ok && kv.k == "_database" {
+					dbs = append(dbs, s)
+				}
+			}
 		}
 		if xs == nil {
 			xs = []interface{}{}
 		}
-		return inner{t, enc(nil, xs)}
+		return inner{t, enc(nil, xs), dbs}
 	}
 	data := func(extra ...kvp) rrow {
 		return append(rrow{{"time", tsMicros}, {"v", int64(1)}}, extra...)
@@ -1030,9 +1042,11 @@ func (e *env) repGrid() {
 		mkW([]rrow{data(kvp{"_measurement", nil}, kvp{"measurement", int64(1)}, kvp{"m", "viam3"})}),
 		mkW([]rrow{data(kvp{"measurement", "only2"}), data(kvp{"m", "only3"}), data()}),
 		mkW([]rrow{{{"_measurement", "nodata"}, {"_database", "prod"}}, data(kvp{"_measurement", "cpu"})}),
+		mkW([]rrow{data(kvp{"_measurement", "cpu"}, kvp{"_database", ""}), data(kvp{"_measurement", "cpu"}, kvp{"_database", int64(3)}), data(kvp{"_measurement", "cpu"}, kvp{"database", "viadb"})}),
+		mkW([]rrow{data(kvp{"_measurement", "cpu"}, kvp{"_database", "prod"}), data(kvp{"_measurement", "cpu"}, kvp{"_database", "stage"}), data(kvp{"_measurement", "mem"}, kvp{"_database", "prod"})}),
 		mkW(nil),
-		{"G", enc(nil, int64(7))},
-		{"G", enc(nil, "cpu")},
+		{"G", enc(nil, int64(7)), nil},
+		{"G", enc(nil, "cpu"), nil},
 	}
 	env := func(declared int, name string) []byte {
 		return append([]byte{1, byte(declared >> 8), byte(declared)}, name...)
@@ -1059,7 +1073,7 @@ func (e *env) repGrid() {
 	}
 	for _, p := range pres {
 		for _, in := range inners {
-			e.repCase(p.b, in.tok, in.b, p.label)
+			e.repCase(p.b, in.tok, in.b, in.dbs, p.label)
 		}
 	}
 }
